@@ -991,6 +991,10 @@ func (d *Data) sendJSONValuesInRange(w http.ResponseWriter, r *http.Request, ctx
 
 		return nil
 	})
+	if err != nil {
+		// e.g., a key in the range has conflicting values among the parents of a merged version
+		return
+	}
 	switch {
 	case tarOut:
 		tw.Close()
